@@ -23,7 +23,7 @@ RULE = ("'space' cases: one per size 1..20 (all rows compared with itertools.pro
         "array produced/accepted denotes bits(k); 'file' cases: one random data set written to disk (N in 1..200, n in 1..8, "
         "alphabet subset of {X,Y,Z}+user letters, complex targets). Non-trivial: size/file never seen before, loaders with >= 2 "
         "rows and >= 2 columns; distinct by content digest.")
-REQUIRED = ["space_rows_compared", "subspace_vectors_compared", "index_conversions_compared", "array_positions_checked",
+REQUIRED = ["space_requests_after_in_place_modification", "space_rows_compared", "subspace_vectors_compared", "index_conversions_compared", "array_positions_checked",
             "size_guard_checks", "files_loaded", "refbasis_extractions", "dm_files_loaded"]
 ANCHOR_FILES = ["qucumber/utils/data.py", "qucumber/nn_states/neural_state.py"]
 REACH = [
@@ -124,6 +124,26 @@ def space_case(case, ctx):
         if idx != [int(k) for k in list(ks)[:200]]:
             j = next(i for i, (x, y) in enumerate(zip(idx, list(ks)[:200])) if x != int(y))
             ctx.violation("index-conversion", f"index of {rows[j].int().tolist()} computed as {idx[j]}, expected {int(list(ks)[j])}", tags={"size": n})
+    # history: the space handed out earlier was modified in place by its owner (e.g. used as an overwritten chain
+    # state); a later request must still denote the right basis states
+    if n <= 10:
+        s1 = ctx.lib("generate_hilbert_space", st.generate_hilbert_space, size=n)
+        s1[:, 0] = 1 - s1[:, 0]
+        s1.mul_(0.5)
+        s2 = ctx.lib("generate_hilbert_space(again)", st.generate_hilbert_space, size=n)
+        st_b = any_state(min(n, 2))
+        s3 = ctx.lib("generate_hilbert_space(other model)", st_b.generate_hilbert_space, size=n)
+        ctx.count("space_requests_after_in_place_modification", 2)
+        wantk = np.array([bits(k, n) for k in range(2 ** n)], dtype=float)
+        for nm, sx in (("the same model", s2), ("another model", s3)):
+            if not np.array_equal(sx.numpy(), wantk):
+                ctx.violation("hilbert-space-shared-buffer", f"size {n}: after a previously returned space was modified in place, "
+                              f"a new request from {nm} returns corrupted rows (row 0 = {sx[0].tolist()})", tags={"size": n})
+        v1 = ctx.lib("subspace_vector", st.subspace_vector, 1, size=n)
+        v1.add_(5.0)
+        v1b = ctx.lib("subspace_vector(again)", st.subspace_vector, 1, size=n)
+        if v1b.numpy().astype(int).tolist() != bits(1, n):
+            ctx.violation("hilbert-space-shared-buffer", f"subspace_vector(1,{n}) corrupted by modifying an earlier result", tags={"size": n})
     ctx.mark_nontrivial(f"space:{n}")
     ctx.seen("sizes", n)
     if n in (3, 12, 20):
